@@ -61,7 +61,7 @@ func init() {
 			"(issuer vs. sealing node, issuer vs. genesis wallet, empty transaction, genesis receiver vs. issuer, DAG loaded), the loaded flag of a synced ledger is unreachable after any cancel, and the admission path has no other callers — "+
 			"so everything replayed from the orphan buffer went through the same guards.",
 		runC10)
-	register("C13", []string{"./accountant"},
+	register("C13", []string{"./accountant", "./gossip"},
 		"Structural necessary conditions of parking orphans: on the not-found edge of a declared parent every path parks the vertex (or rejects it) and returns ErrParentDoesNotExists / ErrLeafRejected without touching DAG or index; "+
 			"the buffer's append lies behind its size and retry bounds with the retry counter incremented first; the retry loop re-enters addLeafMemorized (the function holding the verify/exists/parent guards) and nothing else inserts into the DAG. "+
 			"That every delivery permutation converges to the parents-first ledger is a schedule property and not decided.",
@@ -856,6 +856,72 @@ func runC13(w *World, r *Report) {
 				}
 			})
 			r.check(inc, "buffer-bounds", "insert/increment-first", lineOf(w, app), "the retry counter is incremented before the vertex is parked again", "no dominating increment")
+		}
+	}
+
+	// gossip side: ask peers for the missing parents, with a bounded number of fetch slots that are always released
+	if gp := w.Pkg("gossip"); gp != nil {
+		r.rule("fetch-missing-parents", "on ErrParentDoesNotExists the gossip side starts a fetch for the left parent and, when different, the right parent; a fetch slot taken is released on every path", 3)
+		for _, name := range []string{"sendToAccountant", "processLackingParent"} {
+			gf := w.fx(r, "gossip", "gossiper", name)
+			if gf == nil {
+				continue
+			}
+			var isE []Edge
+			for _, c := range callsTo(gf.fn, "errors.Is") {
+				if describeErrVal(c.Common().Args[1]) == "ErrParentDoesNotExists" {
+					isE = append(isE, passBool(c, 0, true)...)
+				}
+			}
+			var parents []string
+			okGo := false
+			for _, fnn := range WithAnon(gf.fn) {
+				instrsOf(fnn, func(in ssa.Instruction) {
+					g, isGo := in.(*ssa.Go)
+					if !isGo || !strings.HasSuffix(calleeName(g), ").processLackingParent") {
+						return
+					}
+					okGo = behind(g, isE)
+					_, a := callArgs(g)
+					for _, o := range origins(a[1]) {
+						parents = append(parents, pathOf(o))
+					}
+				})
+			}
+			parents = uniqStrings(parents)
+			hasL, hasR := false, false
+			for _, p := range parents {
+				if strings.HasSuffix(p, ".LeftParentHash") {
+					hasL = true
+				}
+				if strings.HasSuffix(p, ".RightParentHash") {
+					hasR = true
+				}
+			}
+			r.check(okGo && hasL && hasR, "fetch-missing-parents", name+"/both-parents", w.Pos(gf.fn.Pos()), "a fetch is started for both declared parents behind errors.Is(err, ErrParentDoesNotExists)", fmt.Sprintf("behind-sentinel=%v fetched=%v", okGo, parents))
+		}
+		if gf := w.fx(r, "gossip", "gossiper", "processLackingParent"); gf != nil {
+			var incs, decs []ssa.CallInstruction
+			for _, c := range callsBySuffix(gf.fn, "atomic.Int32).Add") {
+				_, a := callArgs(c)
+				if k, ok := intConst(a[0]); ok && k > 0 {
+					incs = append(incs, c)
+				} else if ok && k < 0 {
+					decs = append(decs, c)
+				}
+			}
+			leaks := 0
+			for _, inc := range incs {
+				leaks += len(exitsAvoiding(inc, nil, func(in ssa.Instruction) bool {
+					for _, d := range decs {
+						if in == d.(ssa.Instruction) {
+							return true
+						}
+					}
+					return false
+				}))
+			}
+			r.check(len(incs) == 1 && len(decs) >= 1 && leaks == 0, "fetch-missing-parents", "processLackingParent/slot-released", w.Pos(gf.fn.Pos()), "the in-flight counter is decremented on every path after it was incremented", fmt.Sprintf("increments=%d decrements=%d leaking exits=%d", len(incs), len(decs), leaks))
 		}
 	}
 
